@@ -89,6 +89,7 @@ type Contract struct {
 	lets     []letStmt // executed after the call, before ensures (forking allowed)
 	prelets  []letStmt // executed before the call
 	examples []*Clause // extra constraints of the vacuity probe only
+	called   map[*ssa.Function]bool // lemmas: the real functions their statements mention
 	foralls  []qvar    // contract-level universally quantified variables
 	nilParams []string // parameters bound to nil
 	callAsserts []*Clause // label = callee name
